@@ -542,3 +542,35 @@ def pivot(q, names, types, rows):
                 row.extend([None] * len(others))
         out.append(tuple(row))
     return onames, otypes, out
+
+
+def domain_error_possible(q, tables, excs, default_table=None):
+    """Does ANY sub-expression of the statement (outside aggregate calls: their arguments are looked at instead), evaluated
+    eagerly on ANY row of its table, raise one of `excs`? The reference model is lazier than the engine (AND / OR / COALESCE
+    stop early, targets are not evaluated for filtered rows, constants are folded at compile time): when the engine alone
+    stops with an arithmetic-domain error, it is outside the property only if such an evaluation exists somewhere."""
+    try:
+        table = resolve_table(q, tables, default_table)
+    except Exception:  # noqa: BLE001
+        return True
+    env = Env(tables, table)
+    src = [dict(zip([n for n, _ in table.columns], r)) for r in table.rows] or [dict((n, None) for n, _ in table.columns)]
+    nodes = []
+    for e in q.exprs():
+        for n in e.walk():
+            if n.kind == 'subq':
+                if domain_error_possible(n.q, tables, excs, default_table=table):
+                    return True
+            elif n.kind not in ('col', 'lit', 'param', 'agg') and not n.has_agg():
+                nodes.append(n)
+    if q.subquery is not None and domain_error_possible(q.subquery, tables, excs):
+        return True
+    for n in nodes:
+        for r in src:
+            try:
+                ev(n, r, env)
+            except excs:
+                return True
+            except Exception:  # noqa: BLE001
+                pass
+    return False
